@@ -618,6 +618,37 @@ def use_budget_patterns(patterns, on):
         setattr(obj, attr, counted if on else original)
 
 
+def check_budget_detector():
+    """The detector detects, natively and under the tracer: `(a+)+$` (exponential on a...ab) must be reported on every
+    path whose free character is not 'a', `(a+)$` on none; the failing path goes through the traced allowance, the
+    realisation and the untraced continuation.  Returns the number of paths; AssertionError otherwise."""
+    from . import engine
+    cls = _make_budget_pattern()
+    bad, good = cls(re.compile(r"(a+)+$"), "self-check"), cls(re.compile(r"(a+)$"), "self-check")
+    try:
+        bad.match("a" * 40 + "b")
+        raise AssertionError("budget detector: (a+)+$ on a*40+b finished")
+    except DidNotFinish:
+        pass
+    assert good.match("a" * 40 + "b") is None and good.match("a" * 40).end() == 40
+    total = 0
+    for patt, want in ((bad, "counterexample"), (good, "confirmed")):
+        def probe(o: int):
+            engine.assume(1 <= o <= 127)
+            del HANGS[:]
+            try:
+                m = patt.match("a" * 40 + chr(o))
+            except DidNotFinish:
+                return HANGS[0]
+            return None if (m is not None) == (o == 97 or o == 10) else "wrong match for %d" % o
+        res = engine.explore("budget-detector", probe, timeout=60)
+        assert res.status == want and (want == "confirmed" or res.cex[0]["detail"].startswith("self-check")), \
+            (patt.pattern, res.status, res.cex, res.error)
+        total += res.paths
+    del HANGS[:]
+    return total
+
+
 def validate_budget_patterns(patterns, maxlen=4):
     """every BudgetPattern against the compiled pattern it was built from: match/search/finditer agree on every text
     up to `maxlen` over the characters the patterns distinguish (+ upper/lower/extra-case letters for IGNORECASE)"""
